@@ -45,6 +45,11 @@ CHECKS = {
    text="Exhaustive within bounds: every pair of node histories with 3 (thorough 4) local operations and all gossip lost, plus simulated histories with partial gossip and TLC-chosen pushes; each followed by a push into a fresh node, a one-way push and an exchange in both directions; every node's listing after every step must be LWW over its own updates plus the sender's.",
    note="Trusts TLC, the Json module, the clock hook.",
    design="5 C10, 4.7"),
+ "C16": dict(
+   technique="TLA+ spec Auth model-checked with TLC; TLC-generated credential-table shapes materialised as files for the real auth.FileHandler/StaticHandler; every load and Authenticate outcome validated by TLC against Admit/MountOf (trace validation)",
+   text="Exhaustive within bounds: every table shape over 5 (thorough 6) user names (absent / 2-field / 3-field line) x line orders (sorted, reversed, seeded shuffles); per table every present user with right / empty / wrong / another user's password, every absent user, empty and unknown user names; three-field lines with an empty mount column; the static store with all 16 combinations. Load must succeed and each outcome must equal Admit with the entry's mount point (default when none).",
+   note="Trusts TLC and the Json module. User names with ':' '\"' newline and duplicate user names are not generated.",
+   design="5 C16, 4.9"),
 }
 
 def main():
